@@ -466,7 +466,16 @@ def drive(ctx, seed, idx, r, d, peer, case):
             CURRENT['plan'] = c['plan']
             CURRENT['used'] = None
             CURRENT['holder'] = c['holder']
-            peer.send(c['raw'])
+            if (idx + c['ci']) % 3 == 0:
+                # the call arrives in one read BEHIND a message of the other byte order (a signal nobody subscribed to):
+                # the bus forwards every message in its author's byte order, and reads coalesce
+                other_order = c['raw'][0:1] != b'l'
+                filler = RM.build(RM.SIGNAL, 90000 + c['serial'], {'path': '/filler', 'member': 'Noise', 'interface': 'x.y',
+                                                                   'sender': ':1.99'}, 's', ['noise'], other_order)
+                peer.send(filler + c['raw'])
+                ctx.count('calls_behind_a_message_of_the_other_byte_order')
+            else:
+                peer.send(c['raw'])
             c['invs'] = LOG[before:]       # dispatch is synchronous: these invocations belong to this call
             if CURRENT['used'] in c['plan']:
                 c['entry'], c['exp'] = c['plan'][CURRENT['used']]
